@@ -154,6 +154,39 @@ def gen_history(rng, thorough, count):
     return ops
 
 
+def sweep_lengths(thorough):
+    top = 1100 if thorough else 400
+    lens = list(range(0, top))
+    p2 = 512
+    while p2 <= (65536 if thorough else 4096):
+        lens += [p2 + d for d in range(-3, 4)]
+        p2 *= 2
+    return sorted(set(lens))
+
+
+def gen_length_sweep(rng, thorough):
+    """one short history per string length L: strings of exactly L characters (+NUL) go through init, every setter, a copy in
+    each direction (into a fresh object, over a shorter and over a longer string), a dimension name -- so a boundary a change
+    introduces at ANY length (a stack buffer, a block size, a rounded allocation) is hit exactly"""
+    out = []
+    for L in sweep_lengths(thorough):
+        def S(n):
+            b = gen_chars(rng, n) + [0]
+            return tok(b, len(b))
+        ops = ["new 3",
+               "init 0 1 %s %s %d %d 2" % (S(L), S(L), DBL[1], DBL[2]),
+               "dim 0 0 %s 1 64 16 1" % S(L), "dim 0 1 %s 2 64 16 1" % S(max(0, L - 1)),
+               "copy 1 0",
+               "init 2 0 %s %s %d %d 1" % (S(L + 1), S(max(0, L - 1)), DBL[1], DBL[1]),
+               "copy 2 0",                       # over a longer uri and a shorter metadata string
+               "uri 1 %s" % S(L + 1), "meta 1 %s" % S(max(0, L - 1)), "keys 1 %s %s" % (S(L), S(L + 1)),
+               "copy 0 1",                       # back: the destination holds strings of length L
+               "dim 0 0 %s 1 64 16 1" % S(L + 1), "dim 0 0 %s 1 64 16 1" % S(L),
+               "copy 2 0", "destroy 0", "destroy 1", "destroy 2", "end"]
+        out.append(ops)
+    return out
+
+
 # ----------------------------------------------------------------------------- parsing of canonical lines
 class Str:
     __slots__ = ("cls", "nbytes", "is_ref", "hex")
@@ -626,7 +659,10 @@ def run(ctx):
         return
 
     nh = 60000 if thorough else 4000
-    batch = [gen_history(ctx.rng, thorough, ctx.count) for _ in range(nh)]
+    sweep = gen_length_sweep(ctx.rng, thorough)
+    ctx.extra["string_length_sweep"] = "%d histories: every string length 0..%d and around the powers of two up to %d" % (
+        len(sweep), (1100 if thorough else 400) - 1, 65536 if thorough else 4096)
+    batch = sweep + [gen_history(ctx.rng, thorough, ctx.count) for _ in range(nh)]
     for h in batch[:2]:
         ctx.sample([o[:200] for o in h[:30]])
     shards = [s for s in vlib.shard(batch, vlib.NPROC * (8 if thorough else 1)) if s]
